@@ -63,15 +63,21 @@ fn make_instance(r: &mut Rng, ring: &'static KeyRing, n_offered: usize, k: u8) -
     let mut s = Scn::new(r, ring, Focus::default());
     let mut tb = TransactionBuilder::new(&cfg);
     let multi = k % 4 >= 2;
-    let n_out = 1 + s.r.below(2);
+    let identical = s.r.below(5) == 0;
+    let n_out = if identical { 2 + s.r.below(2) } else { 1 + s.r.below(2) };
+    let ident_addr = {
+        let kx = s.key_ix();
+        s.key_address(kx)
+    };
     let base = *s.r.pick(&[2_000_000u64, 3_000_000, 10_000_000, 1_500_000]);
     let mut outs_desc = vec![];
     let mut outputs_have_assets = false;
     let mut want_assets: Vec<((Vec<u8>, Vec<u8>), i128)> = vec![];
     for j in 0..n_out {
-        let coin = base + j * 500_000 + s.r.below(3) * 100_000;
+        // identical outputs: the same address and amount several times
+        let coin = if identical { base } else { base + j * 500_000 + s.r.below(3) * 100_000 };
         let mut v = Val::coin(coin);
-        if multi && s.r.below(2) == 0 {
+        if multi && !identical && s.r.below(2) == 0 {
             let id = (vec![0xa1; 28], vec![0x61 + s.r.below(2) as u8]);
             let q = 1 + s.r.below(50) as i128;
             v.add_asset(id.clone(), q);
@@ -79,7 +85,7 @@ fn make_instance(r: &mut Rng, ring: &'static KeyRing, n_offered: usize, k: u8) -
             outputs_have_assets = true;
         }
         let kx = s.key_ix();
-        let addr = s.key_address(kx);
+        let addr = if identical { ident_addr.clone() } else { s.key_address(kx) };
         let mut out = TransactionOutput::new(&addr, &val_to_csl(&v));
         if let Ok(Ok(min)) = guard(|| min_ada_for_output(&out, &DataCost::new_coins_per_byte(&BigNum::from(4310u64)))) {
             let min: u64 = min.into();
@@ -92,6 +98,33 @@ fn make_instance(r: &mut Rng, ring: &'static KeyRing, n_offered: usize, k: u8) -
             return None;
         }
         outs_desc.push(format!("coin={} assets={:?}", v.coin, v.assets.values().collect::<Vec<_>>()));
+    }
+    // now and then tokens are burned: nothing is paid out in that asset, the inputs must still bring it
+    let mut burned: Option<((Vec<u8>, Vec<u8>), i128)> = None;
+    if multi && s.r.below(5) == 0 {
+        let ns = ring.natives[0].clone();
+        let pid = ns.hash().to_bytes();
+        let name = vec![0x62];
+        let q = 1 + s.r.below(40) as i128;
+        let mut mb = MintBuilder::new();
+        let wit = MintWitness::new_native_script(&NativeScriptSource::new(&ns));
+        if let Ok(Ok(())) = guard(|| mb.add_asset(&wit, &AssetName::new(name.clone()).unwrap(), &Int::new_negative(&BigNum::from(q as u64)))) {
+            tb.set_mint_builder(&mb);
+            burned = Some(((pid, name), q));
+            // the multi-asset strategies then select by that asset first: the pure largest-by-coin clause does not apply
+            outputs_have_assets = true;
+        }
+    }
+    // now and then the caller asks for a minimum fee around the fee the selection will reach
+    let mut asked_min_fee: Option<u64> = None;
+    if s.r.below(4) == 0 {
+        if let Ok(Ok(f0)) = guard(|| tb.min_fee()) {
+            let f0: u64 = f0.into();
+            let x = f0 + s.r.below(14_000);
+            if guard(|| tb.set_min_fee(&BigNum::from(x))).is_ok() {
+                asked_min_fee = Some(x);
+            }
+        }
     }
     // now and then a reward withdrawal pays (part of) the lovelace: the selection then starts from an
     // implicit input and, for the multi-asset strategies, still has to collect the tokens
@@ -137,6 +170,11 @@ fn make_instance(r: &mut Rng, ring: &'static KeyRing, n_offered: usize, k: u8) -
                 v.add_asset((vec![0xa2; 28], vec![0x7a]), 1 + s.r.below(9) as i128);
             }
         }
+        if let Some((id, q)) = &burned {
+            if s.r.bool() {
+                v.add_asset(id.clone(), match s.r.below(3) { 0 => *q, 1 => *q / 2 + 1, _ => *q * 2 });
+            }
+        }
         let kx = s.key_ix();
         let addr = if s.r.below(8) == 0 { ring.byron[s.r.usize(ring.byron.len())].addr.to_address() } else { s.key_address(kx) };
         let i = s.new_utxo(&addr, v.clone());
@@ -144,7 +182,7 @@ fn make_instance(r: &mut Rng, ring: &'static KeyRing, n_offered: usize, k: u8) -
         offered_csl.add(&s.csl_utxo(i, None, None));
         off_desc.push(format!("#{} coin={} assets={:?}", j, v.coin, v.assets.values().collect::<Vec<_>>()));
     }
-    let desc = json!({"strategy": strat(k).1, "outputs": outs_desc, "offered": off_desc, "pre_existing": pre.iter().map(|i| s.utxos[*i].val.coin).collect::<Vec<_>>(), "withdrawal": implicit});
+    let desc = json!({"strategy": strat(k).1, "outputs": outs_desc, "offered": off_desc, "pre_existing": pre.iter().map(|i| s.utxos[*i].val.coin).collect::<Vec<_>>(), "withdrawal": implicit, "identical_outputs": identical, "burn": burned.as_ref().map(|(_, q)| q.to_string()), "set_min_fee": asked_min_fee});
     Some(Inst { tb, utxos: s.utxos, offered, pre, offered_csl, k, desc, outputs_have_assets, implicit })
 }
 
